@@ -42,6 +42,8 @@ inductive RData where
   | soa (minimum : Nat)
   | txt (tag : Nat)
   | srv (target : Name)
+  /-- an RRSIG covering the given type (signature bytes are irrelevant here) -/
+  | rrsig (covered : Nat)
   deriving DecidableEq, Repr, Inhabited
 
 def T_A : Nat := 1
@@ -51,6 +53,7 @@ def T_SOA : Nat := 6
 def T_TXT : Nat := 16
 def T_AAAA : Nat := 28
 def T_SRV : Nat := 33
+def T_RRSIG : Nat := 46
 def T_DS : Nat := 43
 def T_ANY : Nat := 255
 
@@ -62,6 +65,7 @@ def RData.rtype : RData → Nat
   | .soa _ => T_SOA
   | .txt _ => T_TXT
   | .srv _ => T_SRV
+  | .rrsig _ => T_RRSIG
 
 /-- `RData::ip_addr` -/
 def RData.ip? : RData → Option Ip
@@ -156,6 +160,8 @@ structure Config where
   serverFilter : Acs
   /-- `answer_address_filter` of the pool context (allow_answers / deny_answers) -/
   answerFilter : Acs
+  /-- the client's DO bit (`query_has_dnssec_ok` of `Recursor::resolve`) -/
+  dnssecOk : Bool := false
   deriving Repr
 
 /-- `MAX_CNAME_LOOKUPS` (tied to the source by `Proofs/TiesC19.lean`) -/
@@ -550,6 +556,31 @@ def cnameTarget? (r : Record) : Option Name :=
   | .cname t => some t
   | _ => none
 
+/-- what `resolve_cnames` takes over from the answer of a CNAME target: records of the query type,
+CNAMEs, and RRSIGs covering either -/
+def chainKeeps (qtype : Nat) (x : Record) : Bool :=
+  x.rtype == qtype || x.rtype == T_CNAME ||
+    match x.data with
+    | .rrsig c => c == qtype || c == T_CNAME
+    | _ => false
+
+/-- `RecordType::is_dnssec` on the record types of the simulated internets (only RRSIG records
+occur; DS appears as a query type only) -/
+def isDnssecType (t : Nat) : Bool := t == T_RRSIG
+
+/-- `Message::maybe_strip_dnssec_records` -/
+def stripDnssec (dnssecOk : Bool) (q : Query) (r : Response) : Response :=
+  if dnssecOk then r
+  else
+    let keep := fun (x : Record) => x.rtype == q.qtype || !isDnssecType x.rtype
+    { r with answers := r.answers.filter keep, authorities := r.authorities.filter keep,
+             additionals := r.additionals.filter keep }
+
+/-- the last step of `RecursorDnsHandle::resolve` on a successful outcome -/
+def stripRes (cfg : Config) (q : Query) : St × Except Err Response → St × Except Err Response
+  | (st, .ok r) => (st, .ok (stripDnssec cfg.dnssecOk q r))
+  | x => x
+
 /-- the `for rec in response.all_sections()` loop of `resolve_cnames` -/
 def chaseLoop (rec : ResRec) (resp : Response) (qtype : Nat) (depth : Nat) :
     List Record → List Record → St → St × Except Err (List Record)
@@ -566,7 +597,7 @@ def chaseLoop (rec : ResRec) (resp : Response) (qtype : Nat) (depth : Nat) :
           match rec ⟨target, qtype⟩ depth st with
           | (st, .error e) => (st, .error e)
           | (st, .ok r') =>
-            let more := r'.answers.filter fun x => x.rtype == qtype || x.rtype == T_CNAME
+            let more := r'.answers.filter (chainKeeps qtype)
             chaseLoop rec resp qtype depth rs (chain ++ more) st
 
 /-- `resolve_cnames` -/
@@ -599,7 +630,7 @@ def resolveMiss (cfg : Config) (net : Net) (rec : ResRec) (q : Query) (depth : N
   | (st, .ok (depth, pool)) =>
     match answerQuery cfg net q pool st with
     | (st, .error e) => (st, .error e)
-    | (st, .ok resp) => resolveCnames cfg rec resp q depth st
+    | (st, .ok resp) => stripRes cfg q (resolveCnames cfg rec resp q depth st)
 
 /-- `RecursorDnsHandle::resolve`; the fuel stands for the nesting of `resolve_cnames → resolve`,
 which the depth counter bounds by `recursion_limit` -/
@@ -609,7 +640,7 @@ def resolveFuel (cfg : Config) (net : Net) : Nat → ResRec
     match rcGet st.rcache q with
     | some (.error e) => (st, .error e)
     | some (.ok r) =>
-      if r.aa then resolveCnames cfg (resolveFuel cfg net f) r q depth st
+      if r.aa then stripRes cfg q (resolveCnames cfg (resolveFuel cfg net f) r q depth st)
       else resolveMiss cfg net (resolveFuel cfg net f) q depth st
     | none => resolveMiss cfg net (resolveFuel cfg net f) q depth st
 
